@@ -100,9 +100,76 @@ Proof.
   rewrite !N.eqb_refl. reflexivity.
 Qed.
 
+(* Group::merge_with never changes the UUID of the destination group *)
+Lemma group_merge_with_keeps_uuid now d s d' lg :
+  group_merge_with now d s = Ok (d', lg) -> gi_uuid d' = gi_uuid d.
+Proof.
+  unfold group_merge_with.
+  destruct (lm_or (gi_times s) 0%Z) as [src_lm w1]. destruct (lm_or (gi_times d) now) as [dst_lm w2].
+  destruct (Z.eqb dst_lm src_lm).
+  - destruct (group_diverged d s); [discriminate|]. intro H. injection H as <- _. reflexivity.
+  - destruct (Z.gtb dst_lm src_lm); intro H; injection H as <- _; reflexivity.
+Qed.
+
+(* ---------- merge_group_head: the root group itself (repair F19) or a group below it ---------- *)
+
+(* The two ways the head step can succeed: the group processed IS the destination's root, whose
+   own fields are then merged in place (children untouched, UUID kept); or it is not, and the
+   step is the search among the descendants of the root, [merge_group_head_below]. *)
+Lemma merge_group_head_cases now si root root' lg :
+  merge_group_head now si root = Ok (root', lg) ->
+  (exists ri rc ri', root = NG ri rc /\ gi_uuid si = gi_uuid ri
+                     /\ group_merge_with now ri si = Ok (ri', lg)
+                     /\ root' = NG ri' rc /\ gi_uuid ri' = gi_uuid ri)
+  \/ ((is_group root = true -> gi_uuid si <> uuid_of root)
+      /\ merge_group_head_below now si root = Ok (root', lg)).
+Proof.
+  unfold merge_group_head. intro H. destruct root as [ri rc|e].
+  - destruct (N.eqb_spec (gi_uuid si) (gi_uuid ri)) as [E|N].
+    + left. destruct (group_merge_with now ri si) as [[ri' lg1]| | |] eqn:Em; cbn [bind] in H; try discriminate.
+      injection H as <- <-. exists ri, rc, ri'.
+      split; [reflexivity|]. split; [exact E|]. split; [exact Em|]. split; [reflexivity|].
+      eapply group_merge_with_keeps_uuid. exact Em.
+    + right. split; [intros _; exact N|exact H].
+  - right. split; [discriminate|exact H].
+Qed.
+
+Lemma merge_group_head_root now ri rc si :
+  gi_uuid si = gi_uuid ri ->
+  merge_group_head now si (NG ri rc) =
+  (match group_merge_with now ri si with
+   | Ok (ri', lg) => Ok (NG ri' rc, lg)
+   | Err e => Err e | Panic n => Panic n | OutOfFuel => OutOfFuel
+   end).
+Proof.
+  intro E. unfold merge_group_head. rewrite E, N.eqb_refl.
+  destruct (group_merge_with now ri si) as [[ri' lg]| | |]; reflexivity.
+Qed.
+
+Lemma merge_group_head_not_root now si root :
+  (is_group root = true -> gi_uuid si <> uuid_of root) ->
+  merge_group_head now si root = merge_group_head_below now si root.
+Proof.
+  intro N. unfold merge_group_head. destruct root as [ri rc|e]; [|reflexivity].
+  destruct (N.eqb_spec (gi_uuid si) (gi_uuid ri)) as [E|_]; [|reflexivity].
+  exfalso. exact (N eq_refl E).
+Qed.
+
+(* The head step keeps the root's UUID, and either keeps the root's children (root case) or is the
+   old below-the-root behaviour. *)
+Lemma merge_group_head_children now si root root' lg :
+  merge_group_head now si root = Ok (root', lg) ->
+  (children_of root' = children_of root /\ uuid_of root' = uuid_of root /\ is_group root' = is_group root)
+  \/ merge_group_head_below now si root = Ok (root', lg).
+Proof.
+  intro H. apply merge_group_head_cases in H as [(ri & rc & ri' & -> & _ & _ & -> & Eu)|[_ H]].
+  - left. cbn [children_of uuid_of is_group]. auto.
+  - right. exact H.
+Qed.
+
 (* ---------- History::merge_with ---------- *)
 
-Definition keys (m : list (Z * entry)) : list Z := map fst m.
+Definition keys(m : list (Z * entry)) : list Z := map fst m.
 Definition hist_keys (l : list entry) : list (option Z) := map (fun h => t_lm (e_times h)) l.
 Definition all_lm (l : list entry) : Prop := Forall (fun h => t_lm (e_times h) <> None) l.
 (* every pair in the table is an item filed under its own modification time *)
